@@ -94,6 +94,14 @@ pub fn rng_for(seed: u64, stream: u64, idx: u64) -> StdRng {
     StdRng::seed_from_u64(h.finish() ^ seed.rotate_left(17) ^ idx.wrapping_mul(0x9E37_79B9_7F4A_7C15))
 }
 
+/// Scratch directory for databases and child-process files (removed by the caller at exit).
+pub fn scratch_dir(tag: &str) -> PathBuf {
+    let root = std::env::var("VERIF_SCRATCH").unwrap_or_else(|_| "/verif/harness/target/tmp".to_string());
+    let p = PathBuf::from(root).join(format!("{tag}-{}", std::process::id()));
+    let _ = std::fs::create_dir_all(&p);
+    p
+}
+
 pub fn hash_of<T: Hash>(v: &T) -> u64 {
     let mut h = std::collections::hash_map::DefaultHasher::new();
     v.hash(&mut h);
